@@ -1,4 +1,5 @@
 -- root of the proof library: property theorems (Props) and their helper lemmas
+import Blackbird.Props.C02
 import Blackbird.Props.C05
 import Blackbird.Props.C06
 import Blackbird.Props.C08
